@@ -13,7 +13,10 @@ import (
 	"elaverif/harness/hx"
 	"elaverif/harness/regnet"
 
+	"github.com/elastos/Elastos.ELA/common"
 	"github.com/elastos/Elastos.ELA/core/types"
+	ctypes "github.com/elastos/Elastos.ELA/core/types/common"
+	"github.com/elastos/Elastos.ELA/core/types/interfaces"
 )
 
 var sim = &regnet.Sim{Name: "c14", Maturity: 2}
@@ -144,9 +147,13 @@ func history(g *hx.Gen, steps int) {
 		}
 		return nb
 	}
+	// a restart right after a reorganisation: the indexes' own counters (TxIndex block ids) are re-derived
+	// from what the disconnects left in the database, and the next blocks build on that
+	restartNext := false
 	for s := 0; s < steps; s++ {
 		c := r.Intn(100)
-		if c >= 97 && len(active.Blocks) >= 3 { // node restart: chain.Init + index catch-up from the stored chain
+		if (c >= 97 || restartNext) && len(active.Blocks) >= 3 { // node restart: chain.Init + index catch-up from the stored chain
+			restartNext = false
 			g.Emit("restart")
 			h.Observe(false, 40)
 			// side branches are memory only: the generator forgets them as the node does
@@ -155,6 +162,33 @@ func history(g *hx.Gen, steps int) {
 			}
 			byTip[hexOf(sim.BranchTip(active))] = active
 			continue
+		}
+		if s == 8 && r.Chance(45) { // a transaction with 300 outputs: output indexes that need both bytes of the stored uint16
+			var pick *regnet.Coin
+			tip := sim.BranchTip(active)
+			for _, co := range sim.Coins(active) {
+				if co.Addr >= 1 && co.Addr <= regnet.NumUsers && co.Value > 400000 && (!co.CB || tip.Height-co.Height >= sim.N.Params.PowConfiguration.CoinbaseMaturity) {
+					cc := co
+					pick = &cc
+					break
+				}
+			}
+			if pick != nil {
+				owner := 1 + r.Intn(4)
+				outs := make([]regnet.Out, 0, 301)
+				for i := 0; i < 300; i++ {
+					outs = append(outs, regnet.Out{To: owner, Value: 1000})
+				}
+				outs = append(outs, regnet.Out{To: pick.Addr, Value: common.Fixed64(pick.Value - 300*1000 - 500)})
+				big, err := sim.N.Transfer(pick.Addr, []ctypes.OutPoint{{TxID: sim.N.TxByID(pick.ID).Hash(), Index: uint16(pick.Idx)}}, outs, uint64(1<<41)+uint64(r.Intn(1<<30)))
+				if err != nil {
+					panic("harness: " + err.Error())
+				}
+				deliver(active, h.Block(active, []interfaces.Transaction{big}))
+				h.Watch = append(h.Watch, regnet.ID(big.Hash()))
+				h.Observe(false, 8)
+				continue
+			}
 		}
 		switch {
 		case c < 6 && len(active.Blocks) >= 3: // a non-zero and a zero-value output of one address, spent together
@@ -199,6 +233,7 @@ func history(g *hx.Gen, steps int) {
 					h.Observe(false, 12)
 				}
 			}
+			restartNext = r.Chance(30)
 		default: // a sibling of the tip: stays a side chain
 			br := regnet.Fork(active, len(active.Blocks)-1)
 			deliver(br, h.HonestBlock(br, 2))
